@@ -498,13 +498,22 @@ def parse_json_diags(out, root):
     return [res[k] for k in sorted(res)], errors
 
 
+# a Go panic / fatal error / driver-internal error, recognised at the START of a line only: in text mode stderr also carries
+# source excerpts (prefixed by a line number and a bar), whose text may contain any of these words
+CRASH_RE = re.compile(r"^(?:panic: |fatal error: |goroutine \d+ \[running\]|(?:[\w./-]+: )?internal error: )", re.M)
+
+
+def crash_in(text):
+    return bool(CRASH_RE.search(text or ""))
+
+
 def run_binary(ctx, moddir, flags=(), env=None, patterns=("./...",), json_mode=True, timeout=300):
     e = dict(ctx.env)
     if env:
         e.update(env)
     cmd = [ctx.gg] + (["-json"] if json_mode else []) + list(flags) + list(patterns)
     rc, out, err = sh(cmd, cwd=moddir, env=e, timeout=timeout)
-    crashed = ("panic:" in err) or ("internal error" in err) or rc in (2, 124) and "flag" not in err[:200]
+    crashed = crash_in(err) or rc in (2, 124) and "flag" not in err[:200]
     if json_mode:
         diags, errors = parse_json_diags(out, moddir)
     else:
